@@ -1915,6 +1915,97 @@ def _raises(stmts, cls: str) -> bool:
     return isinstance(e, ast.Call) and isinstance(e.func, ast.Name) and e.func.id == cls
 
 
+def alpha(stmts, keep=()):
+    """The statements as text, with every local (assignment / `for` / `with … as` / `except … as` target) renamed to
+    `_L<n>` in order of first binding and constant keyword arguments sorted by name: two bodies that differ only in the
+    names of their locals, or in the order of keyword arguments whose values are literals, have the same text."""
+    names = {}
+
+    def bind(n):
+        if n not in names and n not in keep:
+            names[n] = f"_L{len(names)}"
+
+    class Collect(ast.NodeVisitor):
+        def visit_Name(self, node):
+            if isinstance(node.ctx, ast.Store):
+                bind(node.id)
+
+        def visit_ExceptHandler(self, node):
+            self.generic_visit(node)
+            if node.name:
+                bind(node.name)
+
+    class Rename(ast.NodeTransformer):
+        def visit_Name(self, node):
+            return ast.copy_location(ast.Name(id=names.get(node.id, node.id), ctx=node.ctx), node)
+
+        def visit_ExceptHandler(self, node):
+            self.generic_visit(node)
+            if node.name:
+                node.name = names.get(node.name, node.name)
+            return node
+
+        def visit_Call(self, node):
+            self.generic_visit(node)
+            if node.keywords and all(k.arg is not None and isinstance(k.value, ast.Constant) for k in node.keywords):
+                node.keywords = sorted(node.keywords, key=lambda k: k.arg)
+            return node
+
+    import copy
+    stmts = [copy.deepcopy(x) for x in stmts]
+    for x in stmts:
+        Collect().visit(x)
+    return [ast.unparse(ast.fix_missing_locations(Rename().visit(x))) for x in stmts]
+
+
+def alpha_src(src: str, keep=()):
+    return alpha(strip(ast.parse(textwrap.dedent(src)).body[0].body), keep)
+
+
+LOAD_SHAPE = """
+def load(self, path=None):
+    path = path or self.path
+    try:
+        async with aiofiles.open(path) as fil:
+            read = await fil.read()
+        data: dict = json.loads(read or "{}")
+    except X:
+        pass
+    node_schema = NodeSchema()
+    try:
+        for node_data in data.values():
+            node: Node = node_schema.load(node_data)
+            self.nodes[node.node_id] = node
+    except X:
+        pass
+"""
+SAVE_SHAPE = """
+def save(self):
+    data = {}
+    node_schema = NodeSchema()
+    for node in self.nodes.values():
+        data[node.node_id] = node_schema.dump(node)
+    try:
+        async with aiofiles.open(self.path, mode="w") as fil:
+            await fil.write(json.dumps(data, sort_keys=True, indent=2))
+    except X:
+        pass
+"""
+
+
+def _no_handlers(stmts):
+    """The statements with the handlers of every `try` removed (they are read separately)."""
+    import copy
+    out = []
+    for x in stmts:
+        x = copy.deepcopy(x)
+        for t in ast.walk(x):
+            if isinstance(t, ast.Try):
+                t.handlers = [ast.ExceptHandler(type=ast.Name(id="X", ctx=ast.Load()), name=None, body=[ast.Pass()])]
+        out.append(x)
+    return out
+
+
 def translate_persist(repo: str):
     sys.path.insert(0, os.path.join(repo, "src"))
     mod = importlib.import_module("aiomysensors.persistence")
@@ -1923,15 +2014,14 @@ def translate_persist(repo: str):
     try:
         fn = mod.Persistence.__dict__["load"]
         st = strip(fn_ast(fn).body)
-        u = [ast.unparse(x) for x in st]
-        if not (len(st) == 4 and u[0] == "path = path or self.path" and isinstance(st[1], ast.Try)
-                and u[2] == "node_schema = NodeSchema()" and isinstance(st[3], ast.Try)):
-            raise Untranslatable("load is not: path default / try read+parse / schema / try restore")
+        # the statements outside the handlers, up to the names of the locals
+        got = alpha(_no_handlers(st), keep=("path", "self"))
+        want = alpha_src(LOAD_SHAPE, keep=("path", "self"))
+        if got != want or not (len(st) == 4 and isinstance(st[1], ast.Try) and isinstance(st[3], ast.Try)):
+            raise Untranslatable("load is not: path default / try read+parse / schema / try restore: " + " / ".join(got)[:200])
         t1, t2 = st[1], st[3]
-        b1 = [ast.unparse(x) for x in strip(t1.body)]
-        if b1 != ["async with aiofiles.open(path) as fil:\n    read = await fil.read()", "data: dict = json.loads(read or '{}')"] \
-                or t1.orelse or t1.finalbody:
-            raise Untranslatable("first try of load: " + " / ".join(b1)[:200])
+        if t1.orelse or t1.finalbody or t2.orelse or t2.finalbody:
+            raise Untranslatable("try … else / finally in load")
         clauses = []
         for h in t1.handlers:
             hb = [ast.unparse(x) for x in strip(h.body)]
@@ -1942,39 +2032,40 @@ def translate_persist(repo: str):
             else:
                 raise Untranslatable("handler of the first try of load: " + " / ".join(hb)[:160])
             clauses.append(f"({_classes(h, fn.__globals__)}, {act})")
-        b2 = [ast.unparse(x) for x in strip(t2.body)]
-        if b2 != ["for node_data in data.values():\n    node: Node = node_schema.load(node_data)\n    self.nodes[node.node_id] = node"] \
-                or t2.orelse or t2.finalbody or len(t2.handlers) != 1 or not _raises(t2.handlers[0].body, "PersistenceReadError"):
-            raise Untranslatable("second try of load: " + " / ".join(b2)[:200])
-        out["load"] = {"lean": "def load (cur : PDict Int Node) (fs : Persist.FileState) : Except Persist.Exn Persist.Loaded :=\n"
-                               f"  LP.tryRead cur (LP.openReadParse fs) [{', '.join(clauses)}] fun data =>\n"
-                               f"  LP.catchRead (LP.loadEach cur data) {_classes(t2.handlers[0], fn.__globals__)}"}
+        if len(t2.handlers) != 1 or not _raises(t2.handlers[0].body, "PersistenceReadError"):
+            raise Untranslatable("handlers of the second try of load")
+        out["load"] = {"lean": "def loadClauses : List (List PyExn × LP.ReadAction) := [" + ", ".join(clauses) + "]\n\n"
+                               f"def loadRestoreClasses : List PyExn := {_classes(t2.handlers[0], fn.__globals__)}\n\n"
+                               "def load (cur : PDict Int Node) (fs : Persist.FileState) : Except Persist.Exn Persist.Loaded :=\n"
+                               "  LP.tryRead cur (LP.openReadParse fs) loadClauses fun data =>\n"
+                               "  LP.catchRead (LP.loadEach cur data) loadRestoreClasses"}
     except (Untranslatable, KeyError, TypeError, OSError, AttributeError, IndexError) as err:
         out["load"] = {"error": f"{type(err).__name__}: {err}"[:300]}
     # ---- save
     try:
         fn = mod.Persistence.__dict__["save"]
         st = strip(fn_ast(fn).body)
-        u = [ast.unparse(x) for x in st]
-        want_head = ["data = {}", "node_schema = NodeSchema()",
-                     "for node in self.nodes.values():\n    data[node.node_id] = node_schema.dump(node)"]
-        if u[:3] != want_head or len(st) != 4 or not isinstance(st[3], ast.Try):
-            raise Untranslatable("save does not start by dumping every node into a dict, then one try: " + " / ".join(u)[:200])
+        got = alpha(_no_handlers(st), keep=("self",))
+        want = alpha_src(SAVE_SHAPE, keep=("self",))
+        if len(st) != 4 or not isinstance(st[3], ast.Try) or got[:3] != want[:3]:
+            raise Untranslatable("save does not start by dumping every node into a dict, then one try: " + " / ".join(got)[:200])
         t = st[3]
         tb = strip(t.body)
         if len(tb) != 1 or not isinstance(tb[0], ast.AsyncWith) or len(tb[0].items) != 1 or t.orelse or t.finalbody \
                 or len(t.handlers) != 1 or not _raises(t.handlers[0].body, "PersistenceWriteError"):
             raise Untranslatable("try of save")
-        w = tb[0]
+        # the file operations, read from the normalised text of the `async with`
+        w = ast.parse(got[3]).body[0].body[0]
+        wwant = ast.parse(want[3]).body[0].body[0]
         ops = []
         opn = ast.unparse(w.items[0].context_expr)
-        if opn == "aiofiles.open(self.path, mode='w')":
+        if opn == ast.unparse(wwant.items[0].context_expr) and ast.unparse(w.items[0].optional_vars) == ast.unparse(wwant.items[0].optional_vars):
             ops.append(".openTrunc .live")
         else:
             raise Untranslatable("save opens " + opn[:80])
         for x in strip(w.body):
             ux = ast.unparse(x)
-            if ux == "await fil.write(json.dumps(data, sort_keys=True, indent=2))":
+            if ux == ast.unparse(wwant.body[0]):
                 ops.append(".write .live new")
             else:
                 raise Untranslatable("inside the open file: " + ux[:100])
